@@ -86,7 +86,7 @@ func Gen(seed uint64, profile string) *Scenario {
 		}
 	case "hostile", "mixed":
 		if r.Chance(1, 12) {
-			sc.Allow = []string{simkit.Pick(r, []string{"/w/ext", "/w/ext/dir", "../victim", "../shared", "../shared", "../shared/", ".", "../../shared", "../../w/shared"})}
+			sc.Allow = []string{simkit.Pick(r, []string{"/w/ext", "/w/ext/dir", "../victim", "../shared", "../shared", "../shared/", ".", "../../shared", "../../w/shared", ""})}
 		}
 		sc.SharedPacker = r.Chance(1, 3)
 		n := 1
@@ -319,6 +319,9 @@ func genWellformed(r *simkit.RNG, st *genState) Archive {
 				e.Pad = 600
 			case 2:
 				e.Pad = 5000
+			case 3:
+				// large enough for the decompressed stream to pass a 32 KiB window boundary inside a body
+				e.Pad = simkit.Pick(r, []int{14000, 20000, 30000})
 			}
 			e.Name = decorateOK(r, p, false)
 		case 1:
@@ -512,7 +515,7 @@ func genHostile(r *simkit.RNG) Archive {
 			if r.Chance(1, 3) {
 				// the path of the second link is first recorded as an (empty) directory, whose
 				// mode and times are restored after everything else - if the call gets that far
-				d := mk(y+"/", "dir", "", "")
+				d := mk(y+simkit.Pick(r, []string{"/", "/", "/made/"}), "dir", "", "")
 				d.Mode = simkit.Pick(r, dirModes)
 				ar.Entries = append([]Entry{d}, ar.Entries...)
 				quiet = r.Chance(1, 2)
